@@ -188,6 +188,8 @@ func (w *World) injectWrite() error {
 
 type World struct {
 	flakyL0Lists int // the next newLitestream gets a client whose first k level-0 listings fail
+	raceFetch    bool // newLitestream wraps the client in a racingFetchClient
+	racer        *racingFetchClient
 	injectTruncate bool // the point injection in progress is INJT (application TRUNCATE checkpoint, then a one-frame commit)
 	injectIn         int // commit an application transaction at the n-th next log record (0 = disarmed)
 	injecting        bool
@@ -290,7 +292,12 @@ func (w *World) newLitestream() *litestream.DB {
 		db.Logger = slog.New(injectHandler{w})
 	}
 	c := file.NewReplicaClient(w.replicaDir)
-	if w.flakyL0Lists > 0 {
+	if w.raceFetch {
+		// the baseline fetch of a run-time reset (OpenLTXFile of a level-0 file) is raced by a sync of the same DB
+		rc := &racingFetchClient{ReplicaClient: c, db: db}
+		w.racer = rc
+		db.Replica = litestream.NewReplicaWithClient(db, rc)
+	} else if w.flakyL0Lists > 0 {
 		// the replica's level-0 listing fails for the first k calls of this object (a storage outage at start-up)
 		n := int32(w.flakyL0Lists)
 		w.flakyL0Lists = 0
@@ -301,6 +308,22 @@ func (w *World) newLitestream() *litestream.DB {
 	db.Replica.MonitorEnabled = false
 	c.Replica = db.Replica
 	return db
+}
+
+type racingFetchClient struct {
+	*file.ReplicaClient
+	db    *litestream.DB
+	armed atomic.Bool
+	ran   atomic.Bool
+}
+
+func (c *racingFetchClient) OpenLTXFile(ctx context.Context, level int, minTXID, maxTXID ltx.TXID, offset, size int64) (io.ReadCloser, error) {
+	if level == 0 && c.armed.CompareAndSwap(true, false) {
+		// the DB monitor's tick lands while ResetLocalState has cleared the local level-0 directory and is fetching the baseline
+		_ = c.db.Sync(context.Background())
+		c.ran.Store(true)
+	}
+	return c.ReplicaClient.OpenLTXFile(ctx, level, minTXID, maxTXID, offset, size)
 }
 
 type flakyListClient struct {
